@@ -17,6 +17,10 @@ type AbsEnv struct {
 	Atom   func(e ast.Expr) (constant.Value, bool) // leaf override (fields, calls, parameters)
 	Locals map[types.Object]constant.Value
 	Trace  []string
+	// OnExec, if set, is called for every statement the fold executes (before it) and for
+	// every loop it skips.  SkipLoops makes for/range statements no-ops instead of Unknown.
+	OnExec    func(n ast.Node)
+	SkipLoops bool
 }
 
 type absResult struct {
@@ -203,7 +207,20 @@ func (env *AbsEnv) stmts(list []ast.Stmt) (absResult, bool) {
 type breakSignal struct{}
 
 func (env *AbsEnv) stmt(s ast.Stmt) (absResult, bool) {
+	if env.OnExec != nil {
+		switch s.(type) {
+		case *ast.BlockStmt, *ast.IfStmt, *ast.SwitchStmt:
+		default:
+			env.OnExec(s)
+		}
+	}
 	switch s := s.(type) {
+	case *ast.DeferStmt:
+		return absResult{}, false
+	case *ast.ForStmt, *ast.RangeStmt:
+		if env.SkipLoops {
+			return absResult{}, false
+		}
 	case *ast.BlockStmt:
 		return env.stmts(s.List)
 	case *ast.ReturnStmt:
